@@ -520,7 +520,19 @@ def violation_sig(v):
     return json.dumps({"op": v.get("op"), "why": v.get("why"), "ev": {k: e[k] for k in sorted(e) if k not in ("seq",)}}, sort_keys=True)
 
 
+def repo_lock(exclusive=False):
+    """Checks read /repo's working tree; bin/seedtest temporarily patches it. A shared/exclusive advisory lock keeps a
+    background check from building against a half-applied seeded change (that produced a spurious alarm once)."""
+    import fcntl
+    if os.environ.get("VERIF_LOCK_HELD"):
+        return None
+    f = open("/tmp/verif-repo.lock", "w")
+    fcntl.flock(f, fcntl.LOCK_EX if exclusive else fcntl.LOCK_SH)
+    return f
+
+
 def run_property(pid, tier, seed):
+    _lock = repo_lock()
     ctx = Ctx(pid, tier, seed)
     PROPS[pid](ctx)
     known = load_known()
